@@ -315,3 +315,86 @@ func (p *Prog) virtualOptions(named *types.Named) *Sym {
 	}
 	return p.derivedVirtual[named]
 }
+
+// Entry parameters: a value the constructor hands to the goroutine as an argument of the go
+// statement (`go dsc.main(interval)`) instead of storing it in a field plays the role of the field
+// the vocabulary knows it by, when the struct has no such field and exactly one missing role has the
+// parameter's type. The parameter then reads as that (virtual) field of the receiver.
+
+type entryParamInfo struct {
+	role string
+	recv *ssa.Parameter
+}
+
+func (p *Prog) entryParams() map[*ssa.Parameter]entryParamInfo {
+	if p.entryParamDone {
+		return p.entryParamMap
+	}
+	p.entryParamDone = true
+	p.entryParamMap = map[*ssa.Parameter]entryParamInfo{}
+	for _, d := range p.Discs() {
+		vocab, ok := fieldVocabulary[p.Name+":"+d.Name]
+		if !ok {
+			continue
+		}
+		st, isSt := d.Named.Underlying().(*types.Struct)
+		if !isSt {
+			continue
+		}
+		present := map[string]bool{}
+		for i := 0; i < st.NumFields(); i++ {
+			present[fieldName(types.NewPointer(d.Named), i)] = true
+		}
+		var missing []string
+		for _, r := range vocab {
+			if !present[r] {
+				missing = append(missing, r)
+			}
+		}
+		if len(missing) == 0 {
+			continue
+		}
+		for _, e := range d.Gos {
+			if e.Parent != nil || e.Entry == nil || e.Entry.Signature.Recv() == nil || len(e.Entry.Params) < 2 {
+				continue
+			}
+			for _, par := range e.Entry.Params[1:] {
+				class := fieldTypeClass(par.Type())
+				var roles []string
+				for _, r := range missing {
+					if roleTypeClass(r) == class {
+						roles = append(roles, r)
+					}
+				}
+				if len(roles) == 1 {
+					p.entryParamMap[par] = entryParamInfo{role: roles[0], recv: e.Entry.Params[0]}
+				}
+			}
+		}
+	}
+	return p.entryParamMap
+}
+
+// virtualFieldStores: the values the constructor binds to the virtual field `role` (the matching
+// arguments of its go statements).
+func (p *Prog) virtualFieldStores(fn *ssa.Function, role string) []ssa.Value {
+	var out []ssa.Value
+	for _, b := range fn.Blocks {
+		for _, in := range b.Instrs {
+			g, ok := in.(*ssa.Go)
+			if !ok {
+				continue
+			}
+			cal := p.Callee(g)
+			if cal == nil {
+				continue
+			}
+			for i, par := range cal.Params {
+				if info, okp := p.entryParams()[par]; okp && info.role == role && i < len(g.Call.Args) {
+					out = append(out, g.Call.Args[i])
+				}
+			}
+		}
+	}
+	return out
+}
